@@ -32,7 +32,7 @@ LEVEL = ("25 saveable classes (axes, discrete functions, operators, Hamiltonian 
          "generated content, saved to a path or a file object and loaded, with none / units / basis / both contexts "
          "active at save and at load; the observables of the loaded object read in a neutral context equal the "
          "original ones. Histories of 2-8 savedir calls of 2-3 objects into one or two directories (automatic and explicit "
-         "tags) are compared with a tag -> object dictionary after every step or at the end. All 5 export formats x real/complex x (N,) / (N,M) x with/without axis are enumerated for "
+         "tags) are compared with a tag -> object dictionary after every step or at the end. Export also for Hamiltonians and operators inside unit / basis contexts, spectra on frequency axes received into a place-holder axis, density-matrix evolutions of 2-4 states, and functions on time and frequency axes. All 5 export formats x real/complex x (N,) / (N,M) x with/without axis are enumerated for "
          "DFunction (DataSaveable) and Operator (MatrixData).")
 NOTE = ("The class registry and the observable extractors are hand-enumerated; a class not in the registry is not seen. "
         "Text formats are compared to 1e-15 relative, binary formats exactly. Context operators are real symmetric. Two-dimensional export data have >= 2 "
